@@ -505,3 +505,31 @@ func ptrConsistency(gs []*stack.Goroutine) error {
 	}
 	return err
 }
+
+// Spans returns, for every goroutine, the byte range [start, end) of its text within
+// Print(): header line through its last frame/creator line including that line's EOL.
+func (d *DumpM) Spans() [][2]int {
+	lines := d.Lines()
+	var spans [][2]int
+	off := 0
+	hdr := []byte(d.Indent + "goroutine ")
+	blank1, blank2 := []byte(d.eol()), []byte(d.Indent+d.eol())
+	for _, l := range lines {
+		isBlank := bytes.Equal(l, blank1) || bytes.Equal(l, blank2)
+		switch {
+		case isBlank:
+		case bytes.HasPrefix(l, hdr) && bytes.HasSuffix(trimEOL(l), []byte("]:")) && (len(spans) == 0 || spans[len(spans)-1][1] != off || true) && isModelHeader(d, l):
+			spans = append(spans, [2]int{off, off + len(l)})
+		default:
+			spans[len(spans)-1][1] = off + len(l)
+		}
+		off += len(l)
+	}
+	return spans
+}
+
+// isModelHeader tells a goroutine header from a frame line; frame lines printed by the model
+// end in ")" (calls), a line number/offset (files) or are markers, never in "]:".
+func isModelHeader(d *DumpM, l []byte) bool {
+	return refHeader.Match(trimEOL(l))
+}
